@@ -1,11 +1,32 @@
-"""Facts for C14 (cost accounting): the class attributes that configure the accounting, the drift
-threshold literal, the normal forms of `bump_cost` / `recalc_concurrency` / the charging sites,
-the client override, the -101 branch of `_throttled_request`, and fingerprints."""
-import ast
+"""Facts for C14 (cost accounting) - BEHAVIOURAL (tools/facts/limprobe.py): every table below is
+obtained by RUNNING the current tree through its public entry points (`bump_cost`,
+`recalc_concurrency`, `data_received`, `extra_cost`, bytes fed to a live session, the handler
+hooks), never by looking at the source text.  All inputs are dyadic and the soft ranges are powers
+of two, so every float operation of the code is exact and the observations can be stated as exact
+rationals.
+
+* class attributes that configure the accounting (public), `cost_hard_limit` of a client session;
+* `driftThreshold` / `driftStrict`: the drift that makes `bump_cost` re-evaluate, found by probing;
+* `acctTable`: histories of bump_cost(+-) / recalc_concurrency() / data_received / clock advances /
+  extra_cost values on a bare `SessionBase` subclass (server, client, hard <= soft) -> `cost` and
+  the limiter's `max_concurrent` after every event;
+* `chargeTable`: what one event costs on a live RPCSession / MessageSession: a request and its
+  reply, a failing request / notification with its own cost, a crashing handler, a garbage line
+  (parse error), an invalid request, an oversized request batch, a bad checksum, a handler crash
+  on a message session: (bytes in, bytes out, own cost) -> cost and `errors` deltas;
+* `admitTable`: a request fed to a live session (both classes) after an evaluation at a given
+  fraction of the soft range: refused? delay before the handler starts, hook calls, closing,
+  reply code;
+* `queueTable`: the C13 x C14 composition: limiter saturated, further requests queued, the cost is
+  pushed past the hard limit, the handlers finish: are the queued requests refused and the session
+  closed, is anything left waiting, was any queued request executed.
+Props.lean / Compose.lean prove that the model computes exactly these tables."""
+import asyncio
+import json
 from fractions import Fraction
 
 from . import common
-from . import limcommon as lc
+from . import limprobe as lp
 
 
 def q(x):
@@ -13,102 +34,397 @@ def q(x):
     return f'({f.numerator} : Rat) / {f.denominator}' if f.denominator != 1 else f'({f.numerator} : Rat)'
 
 
+def _mods(repo):
+    return {'session': common.fresh_import(repo, 'aiorpcx.session'),
+            'rawsocket': common.fresh_import(repo, 'aiorpcx.rawsocket'),
+            'framing': common.fresh_import(repo, 'aiorpcx.framing'),
+            'jsonrpc': common.fresh_import(repo, 'aiorpcx.jsonrpc')}
+
+
+CFG_KEYS = ('bw', 'soft', 'hard', 'decay', 'sleep', 'base', 'init')
+ATTR = dict(bw='bw_cost_per_byte', soft='cost_soft_limit', hard='cost_hard_limit',
+            decay='cost_decay_per_sec', sleep='cost_sleep', base='error_base_cost',
+            init='initial_concurrent')
+
+
+def cls_attrs(cfg):
+    return {ATTR[k]: cfg[k] for k in CFG_KEYS}
+
+
+def cfg_ints(cfg):
+    out = []
+    for k in CFG_KEYS[:-1]:
+        out += lp.rat_ints(cfg[k])
+    return out + [int(cfg['init'])]
+
+
+# ------------------------------------------------------------------ bare accounting
+class _Sized:
+    def __init__(self, n):
+        self.n = n
+
+    def __len__(self):
+        return self.n
+
+
+def bare_session(mods, cfg, client, clock):
+    S = mods['session']
+    attrs = dict(cls_attrs(cfg), _probe_extra=0.0, _probe_evals=0)
+    attrs['extra_cost'] = lambda self: self._probe_extra
+    cls = type('P', (S.SessionBase,), attrs)
+    S.time = clock
+    kind = S.SessionKind.CLIENT if client else S.SessionKind.SERVER
+    return cls(lp.StubTransport(kind))
+
+
+OPK = {'b': 0, 'r': 1, 'd': 2, 'a': 3, 'x': 4}
+
+
+def run_acct_row(mods, cfg, client, ops):
+    bench = lp.Bench()        # SessionBase.__init__ wants an event loop for its TaskGroup
+    saved = mods['session'].time
+    try:
+        clock = lp.ManualClock(0.0)
+        s = bare_session(mods, cfg, client, clock)
+        inc, _out = lp.find_limiters(s)
+        obs = []
+        for op in ops:
+            k = op[0]
+            if k == 'b':
+                s.bump_cost(op[1])
+            elif k == 'r':
+                s.recalc_concurrency()
+            elif k == 'd':
+                s.data_received(_Sized(op[1]))
+            elif k == 'a':
+                clock.now += op[1]
+            elif k == 'x':
+                s._probe_extra = op[1]
+            obs.append((s.cost, int(inc.max_concurrent)))
+        return obs
+    finally:
+        mods['session'].time = saved
+        bench.close()
+
+
+def acct_rows(mods):
+    import itertools
+    import random
+    A = dict(bw=1 / 1024, soft=256, hard=768, decay=0.5, sleep=2.0, base=100, init=4)
+    C = dict(bw=1 / 1024, soft=512, hard=256, decay=0.5, sleep=2.0, base=100, init=3)
+    D = dict(bw=1 / 65536, soft=2048, hard=10240, decay=0.25, sleep=2.0, base=100.0, init=20)
+    alphabet = [('b', 150.0), ('b', 101.0), ('b', -250.0), ('b', 600.0), ('d', 65536), ('a', 100.0),
+                ('a', 1000.0), ('x', 256.0), ('x', -128.0), ('r',)]
+    cases = [(A, False, list(p)) for p in itertools.product(alphabet, repeat=2)]
+    rng = random.Random(14)
+    dy = lambda lo, hi: rng.randint(int(lo * 16), int(hi * 16)) / 16
+    for cfg, client in ((A, False), (A, True), (C, False), (D, False), (D, True), (A, False), (D, False)):
+        for _ in range(6):
+            span = max(cfg['hard'], cfg['soft'])
+            ops = []
+            for _ in range(rng.randint(4, 9)):
+                k = rng.random()
+                if k < 0.35:
+                    ops.append(('b', dy(-span / 2, span)))
+                elif k < 0.5:
+                    ops.append(('d', rng.choice([0, 1024, 65536, 2 ** 22, 2 ** 27])))
+                elif k < 0.65:
+                    ops.append(('a', dy(0, 2000)))
+                elif k < 0.8:
+                    ops.append(('x', dy(-span / 4, span / 2)))
+                else:
+                    ops.append(('r',))
+            cases.append((cfg, client, ops))
+    rows = []
+    for cfg, client, ops in cases:
+        obs = run_acct_row(mods, cfg, client, ops)
+        rows.append((cfg, client, ops, obs))
+    return rows
+
+
+def flat_acct_row(row, thr):
+    cfg, client, ops, obs = row
+    out = cfg_ints(cfg) + lp.rat_ints(thr) + [1 if client else 0, len(ops)]
+    for op in ops:
+        out += [OPK[op[0]]] + (lp.rat_ints(op[1]) if len(op) > 1 else [0, 1])
+    for cost, target in obs:
+        out += lp.rat_ints(cost) + [target]
+    return out
+
+
+def drift_probe(mods):
+    """smallest integer drift that makes bump_cost re-evaluate, and whether the test is strict"""
+    cfg = dict(bw=0.0, soft=1 << 20, hard=1 << 21, decay=0.0, sleep=2.0, base=0.0, init=4)
+
+    def evaluates(delta):
+        bench = lp.Bench()
+        saved = mods['session'].time
+        try:
+            s = bare_session(mods, cfg, False, lp.ManualClock(0.0))
+            calls = []
+            orig = s.recalc_concurrency
+            s.recalc_concurrency = lambda: (calls.append(1), orig())[1]
+            s.bump_cost(delta)
+            return bool(calls)
+        finally:
+            mods['session'].time = saved
+            bench.close()
+    first = next((d for d in range(1, 5000) if evaluates(float(d))), None)
+    if first is None:
+        return -1, False
+    thr = first - 1
+    # strict: exactly thr does not trigger (known), thr + a little does
+    return thr, evaluates(thr + 2.0 ** -20) and not evaluates(float(thr))
+
+
+# ------------------------------------------------------------------ live sessions
+def probe_classes(mods, cfg):
+    S = mods['session']
+    RPCError = mods['jsonrpc'].RPCError
+    common_attrs = dict(cls_attrs(cfg), processing_timeout=100000.0)
+
+    class Common:
+        probe_log = None
+        probe_gates = None
+
+        def on_disconnect_due_to_excessive_session_cost(self):
+            self.probe_log.append(('hook', None, self.loop.time()))
+
+        async def _probe(self, key, how, cost):
+            self.probe_log.append(('start', key, self.loop.time()))
+            if how == 'hold':
+                fut = self.probe_gates.setdefault(key, self.loop.create_future())
+                await fut
+            if how == 'fail':
+                e = RPCError(7, 'no')
+                e.cost = cost
+                raise e
+            if how == 'crash':
+                raise ValueError('handler crashed')
+            return key
+
+    class Rpc(Common, S.RPCSession):
+        async def handle_request(self, request):
+            a = request.args
+            return await self._probe(a[0], request.method, a[1] if len(a) > 1 else 0.0)
+
+    class Msg(Common, S.MessageSession):
+        async def handle_message(self, message):
+            parts = message[1].decode().split(':')
+            return await self._probe(int(parts[0]), message[0].rstrip(b'\0').decode(),
+                                     float(parts[1]) if len(parts) > 1 else 0.0)
+    return (type('R', (Rpc,), dict(common_attrs)), type('M', (Msg,), dict(common_attrs)))
+
+
+def rpc_line(method, i, *extra, request=True):
+    d = {'jsonrpc': '2.0', 'method': method, 'params': [i] + list(extra)}
+    if request:
+        d['id'] = i
+    return json.dumps(d).encode() + b'\n'
+
+
+def msg_frame(mods, command, i, extra=None):
+    payload = str(i) if extra is None else f'{i}:{extra}'
+    return mods['framing'].BitcoinFramer().frame((command.encode(), payload.encode()))
+
+
+def open_session(mods, bench, cfg, code):
+    Rpc, Msg = probe_classes(mods, cfg)
+    mods['session'].time = lp.LoopClock(bench.loop)
+    proto, tr, s = bench.session(mods, Rpc if code == 0 else Msg, 'server')
+    s.probe_log, s.probe_gates = [], {}
+    return proto, tr, s
+
+
+def charge_rows(mods):
+    """(class, kind, bw, base, bytes in, bytes out (unframed), own cost) -> (cost delta, errors delta)
+    kinds: 0 good request/message, 1 failing request (RPCError with own cost), 2 crashing handler,
+    3 failing notification, 4 garbage line (parse error), 5 invalid request object, 6 oversized
+    request batch, 7 bad checksum frame"""
+    rows = []
+    saved = mods['session'].time
+    traffic = dict(bw=1 / 1024, soft=1 << 20, hard=1 << 21, decay=0.0, sleep=2.0, base=0.0, init=4)
+    errors = dict(bw=0.0, soft=1 << 20, hard=1 << 21, decay=0.0, sleep=2.0, base=100.0, init=4)
+    mixed = dict(bw=1 / 1024, soft=1 << 20, hard=1 << 21, decay=0.0, sleep=2.0, base=64.0, init=4)
+    plan = []
+    for cfg in (traffic, errors, mixed):
+        plan += [(0, 0, cfg, rpc_line('ok', 5), 0.0), (0, 1, cfg, rpc_line('fail', 6, 37.5), 37.5),
+                 (0, 1, cfg, rpc_line('fail', 6, 0.0), 0.0), (0, 2, cfg, rpc_line('crash', 7), 0.0),
+                 (0, 3, cfg, rpc_line('fail', 8, 12.25, request=False), 12.25),
+                 (0, 4, cfg, b'\xff\xfe{{ not json\n', None),
+                 (0, 5, cfg, b'{"jsonrpc":"2.0","method":5,"id":9}\n', 0.0),
+                 (1, 0, cfg, msg_frame(mods, 'ok', 5), 0.0), (1, 2, cfg, msg_frame(mods, 'crash', 7), 0.0)]
+        bad = bytearray(msg_frame(mods, 'ok', 9))
+        bad[-1] ^= 0xFF
+        plan.append((1, 7, cfg, bytes(bad), 0.0))
+    try:
+        for code, kind, cfg, data, own in plan:
+            bench = lp.VBench()
+            try:
+                proto, tr, s = open_session(mods, bench, cfg, code)
+                c0, e0, n0 = s.cost, s.errors, len(tr.out)
+                proto.data_received(data)
+                bench.advance(1.0)
+                written = tr.out[n0:]
+                out_unframed = sum(len(w) for w in written) - (len(written) if code == 0 else 0)
+                if kind in (4, 7):
+                    # the own cost of a parse error / a bad checksum is whatever the session charged
+                    # on top of the base cost and the traffic: recorded as observed
+                    own = float(Fraction(s.cost) - Fraction(c0) - Fraction(cfg['base'])
+                                - (len(data) + out_unframed) * Fraction(cfg['bw']))
+                rows.append((code, kind, cfg['bw'], cfg['base'], len(data), out_unframed, own,
+                             float(Fraction(s.cost) - Fraction(c0)), s.errors - e0))
+            finally:
+                bench.close()
+    finally:
+        mods['session'].time = saved
+    return rows
+
+
+def flat_charge_row(r):
+    code, kind, bw, base, n_in, n_out, own, dcost, derr = r
+    return [code, kind] + lp.rat_ints(bw) + lp.rat_ints(base) + [n_in, n_out] + lp.rat_ints(own) \
+        + lp.rat_ints(dcost) + [derr]
+
+
+ADMIT_CFG = dict(bw=0.0, soft=256, hard=768, decay=0.0, sleep=2.0, base=0.0, init=4)
+
+
+def admit_rows(mods):
+    """(class, cfg, fraction) -> (refused?, handler started?, delay, hook calls, closing, reply code)"""
+    rows = []
+    saved = mods['session'].time
+    try:
+        for code in (0, 1):
+            for sleep in (2.0, 0.5):
+                for f in (0.0, 0.25, 0.5, 0.75, 0.875, 1.0, 1.25):
+                    cfg = dict(ADMIT_CFG, sleep=sleep)
+                    bench = lp.VBench()
+                    try:
+                        proto, tr, s = open_session(mods, bench, cfg, code)
+                        s.bump_cost(cfg['soft'] + f * (cfg['hard'] - cfg['soft']))
+                        s.recalc_concurrency()
+                        t0 = bench.loop.time()
+                        n0 = len(tr.out)
+                        proto.data_received(rpc_line('ok', 1) if code == 0 else msg_frame(mods, 'ok', 1))
+                        bench.advance(sleep * 4)
+                        starts = [t for k, key, t in s.probe_log if k == 'start']
+                        hooks = sum(1 for k, _key, _t in s.probe_log if k == 'hook')
+                        rcode = 0
+                        for w in tr.out[n0:]:
+                            for line in w.split(b'\n'):
+                                if line.strip():
+                                    try:
+                                        rcode = json.loads(line).get('error', {}).get('code', 0)
+                                    except ValueError:
+                                        pass
+                        rows.append((code, cfg, f, 0 if starts else 1, 1 if starts else 0,
+                                     (starts[0] - t0) if starts else 0.0, hooks,
+                                     1 if s.is_closing() else 0, rcode))
+                    finally:
+                        bench.close()
+    finally:
+        mods['session'].time = saved
+    return rows
+
+
+def flat_admit_row(r, thr):
+    code, cfg, f, refused, started, delay, hooks, closing, rcode = r
+    return [code] + cfg_ints(cfg) + lp.rat_ints(thr) + lp.rat_ints(f) + [refused, started] \
+        + lp.rat_ints(delay) + [hooks, closing, rcode]
+
+
+def queue_rows(mods):
+    """limiter saturated (L handlers held), w more requests queued, the cost is pushed past the hard
+    limit by `route` (0 bump_cost + evaluation, 1 a big chunk of garbage-free traffic: data_received
+    of a sized chunk), the handlers finish oldest first, one more request arrives.
+    -> (refusals seen (hook calls), closing, queued or late requests executed, left waiting)"""
+    rows = []
+    saved = mods['session'].time
+    try:
+        for code in (0, 1):
+            for L in (1, 2):
+                for w in (1, 2):
+                    for route in (0, 1):
+                        cfg = dict(bw=1.0, soft=256, hard=768, decay=0.0, sleep=2.0, base=0.0, init=L)
+                        bench = lp.VBench()
+                        try:
+                            proto, tr, s = open_session(mods, bench, cfg, code)
+                            feed = (lambda m, i: proto.data_received(rpc_line(m, i))) if code == 0 else \
+                                (lambda m, i: proto.data_received(msg_frame(mods, m, i)))
+                            for i in range(L):
+                                feed('hold', i)
+                            bench.idle()
+                            for i in range(L, L + w):
+                                feed('ok', i)
+                            bench.idle()
+                            if route == 0:
+                                s.bump_cost(2000.0)
+                                s.recalc_concurrency()
+                            else:
+                                s.data_received(_Sized(4096))
+                                s.recalc_concurrency()
+                            for i in range(L):
+                                g = s.probe_gates.get(i)
+                                if g is not None and not g.done():
+                                    g.set_result(None)
+                                bench.idle()
+                            if not s.is_closing():
+                                feed('ok', L + w)
+                            bench.advance(1.0)
+                            started = [key for k, key, _t in s.probe_log if k == 'start']
+                            hooks = sum(1 for k, _key, _t in s.probe_log if k == 'hook')
+                            executed = sum(1 for key in started if key >= L)
+                            ends = L + w + 1
+                            waiting = 0 if s.is_closing() else max(0, ends - len(started) - hooks)
+                            rows.append((code, L, w, route, 1 if hooks else 0, 1 if s.is_closing() else 0,
+                                         executed, waiting))
+                        finally:
+                            bench.close()
+    finally:
+        mods['session'].time = saved
+    return rows
+
+
 def extract(repo):
-    session = common.fresh_import(repo, 'aiorpcx.session')
-    jsonrpc = common.fresh_import(repo, 'aiorpcx.jsonrpc')
-    tree = common.parse(repo, 'aiorpcx/session.py')
+    mods = _mods(repo)
+    session, jsonrpc = mods['session'], mods['jsonrpc']
     SB = session.SessionBase
     f = {}
     for name in ('bw_cost_per_byte', 'cost_soft_limit', 'cost_hard_limit', 'cost_decay_per_sec',
                  'cost_sleep', 'error_base_cost', 'initial_concurrent', 'processing_timeout'):
         f[name] = getattr(SB, name)
-    # bump_cost / recalc_concurrency: per-path symbolic normal forms (limcommon.sym_paths)
-    node = common.find(tree, 'SessionBase.bump_cost')
-    f['bump_paths'] = lc.sym_paths(node) if node else []
-    f['drift_threshold'] = None
-    for st in ast.walk(node) if node else []:
-        if isinstance(st, ast.If) and isinstance(st.test, ast.Compare) \
-                and isinstance(st.test.comparators[0], ast.Constant) and 'abs' in ast.unparse(st.test.left):
-            f['drift_threshold'] = st.test.comparators[0].value
-    node = common.find(tree, 'SessionBase.recalc_concurrency')
-    f['recalc_paths'] = lc.sym_paths(node) if node else []
-    for key, qual in (('data_received_paths', 'SessionBase.data_received'),
-                      ('bump_errors_paths', 'SessionBase._bump_errors')):
-        node = common.find(tree, qual)
-        f[key] = lc.sym_paths(node) if node else []
-    # charging sites
-    def calls_bump(qual):
-        n = common.find(tree, qual)
-        out = []
-        for c in ast.walk(n) if n else []:
-            if isinstance(c, ast.Call) and isinstance(c.func, ast.Attribute) and c.func.attr == 'bump_cost':
-                out.append(lc.strip_self(c.args[0]))
-        return out
-    f['charge_send_message'] = calls_bump('SessionBase._send_message')
-    # client override in __init__
-    node = common.find(tree, 'SessionBase.__init__')
-    f['client_override'] = ''
-    for st in ast.walk(node) if node else []:
-        if isinstance(st, ast.If) and 'session_kind' in ast.unparse(st.test):
-            f['client_override'] = f'if {lc.cmp_nf(st.test)}: ' + '; '.join(lc.body_nf(st.body))
-    f['extra_cost_default'] = lc.body_nf(common.find(tree, 'SessionBase.extra_cost').body)
-    # the refusal branch of _throttled_request / _throttled_message, described by *roles* so that
-    # renaming or renumbering locals does not matter: which hook is called, which error object is
-    # made the result, and that the flag it sets guards `close()` later in the function
-    def refusal_roles(qual, exc):
-        fn = common.find(tree, qual)
-        out = []
-        if fn is None:
-            return out
-        closers = set()       # names tested by an `if` whose body closes the session
-        for st in ast.walk(fn):
-            if isinstance(st, ast.If) and isinstance(st.test, ast.Name) \
-                    and any(isinstance(c, ast.Call) and isinstance(c.func, ast.Attribute) and c.func.attr == 'close'
-                            for c in ast.walk(ast.Module(body=st.body, type_ignores=[]))):
-                closers.add(st.test.id)
-        for h in ast.walk(fn):
-            if isinstance(h, ast.ExceptHandler) and h.type is not None and lc.strip_self(h.type) == exc:
-                for st in h.body:
-                    if isinstance(st, ast.Expr):
-                        out.append('call ' + lc.stmt_nf(st))
-                    elif isinstance(st, ast.Assign) and isinstance(st.value, ast.Call):
-                        out.append('result ' + lc.strip_self(st.value))
-                    elif isinstance(st, ast.Assign) and isinstance(st.value, ast.Constant) \
-                            and st.value.value is True and isinstance(st.targets[0], ast.Name):
-                        out.append('set flag guarding close()' if st.targets[0].id in closers
-                                   else 'set flag ' + st.targets[0].id)
-                    else:
-                        out.append(lc.stmt_nf(st))
-        return out
-    f['refusal_branch_request'] = refusal_roles('RPCSession._throttled_request', 'ExcessiveSessionCostError')
-    f['refusal_branch_message'] = refusal_roles('MessageSession._throttled_message', 'ExcessiveSessionCostError')
-    # sleep before the handler
-    f['sleep_guard'] = []
-    for qual in ('RPCSession._throttled_request', 'MessageSession._throttled_message'):
-        n = common.find(tree, qual)
-        for st in ast.walk(n) if n else []:
-            if isinstance(st, ast.If) and '_cost_fraction' in ast.unparse(st.test):
-                f['sleep_guard'].append(f'if {lc.cmp_nf(st.test)}: ' + '; '.join(lc.body_nf(st.body)))
+    thr, strict = drift_probe(mods)
+    f['drift_threshold'] = thr
+    f['drift_strict'] = strict
+    bench = lp.Bench()
+    try:
+        client = bare_session(mods, dict(bw=0.0, soft=2000, hard=10000, decay=0.0, sleep=2.0, base=0.0, init=4),
+                              True, lp.ManualClock(0.0))
+        f['client_hard_limit'] = client.cost_hard_limit
+    finally:
+        bench.close()
     f['excessive_code'] = jsonrpc.JSONRPC.EXCESSIVE_RESOURCE_USAGE
-    f['parse_error_cost'] = ''
-    node = common.find(tree, 'RPCSession._process_messages_loop')
-    for st in ast.walk(node) if node else []:
-        if isinstance(st, ast.If) and 'PARSE_ERROR' in ast.unparse(st.test):
-            f['parse_error_cost'] = '; '.join(lc.body_nf(st.body))
+    f['acct_rows'] = [flat_acct_row(r, thr) for r in acct_rows(mods)]
+    f['charge_rows'] = [flat_charge_row(r) for r in charge_rows(mods)]
+    f['admit_rows'] = [flat_admit_row(r, thr) for r in admit_rows(mods)]
+    f['queue_rows'] = [list(r) for r in queue_rows(mods)]
     f['fingerprints'] = common.fingerprints(repo, {
         'aiorpcx/session.py': ['SessionBase.__init__', 'SessionBase._send_message',
                                'SessionBase._bump_errors', 'SessionBase.data_received',
                                'SessionBase.bump_cost', 'SessionBase.recalc_concurrency',
                                'SessionBase.extra_cost', 'RPCSession._throttled_request',
-                               'MessageSession._throttled_message', 'Concurrency._retarget_semaphore',
-                               'Concurrency.set_target']})
+                               'MessageSession._throttled_message', 'RPCSession._process_messages_loop',
+                               'MessageSession._process_messages_loop', 'Concurrency']})
     return f
 
 
 def render(f):
     thr = f['drift_threshold'] if isinstance(f['drift_threshold'], (int, float)) else -1
+    enc = lp.lean_int_rows
     return (
-        '/-! GENERATED by tools/facts/c14.py from /repo on every run - do not edit. -/\n'
+        'import Aiorpcx.C13.IntRows\n'
+        '/-! GENERATED by tools/facts/c14.py by RUNNING the current tree - do not edit. -/\n'
         'namespace Aiorpcx.Facts.C14\n'
         f'def bwCostPerByte : Rat := {q(f["bw_cost_per_byte"])}\n'
         f'def costSoftLimit : Rat := {q(f["cost_soft_limit"])}\n'
@@ -117,18 +433,27 @@ def render(f):
         f'def costSleep : Rat := {q(f["cost_sleep"])}\n'
         f'def errorBaseCost : Rat := {q(f["error_base_cost"])}\n'
         f'def initialConcurrent : Int := {int(f["initial_concurrent"])}\n'
-        f'/-- the literal in `if abs(self.cost - self._cost_last) > ..` -/\n'
+        f'/-- `cost_hard_limit` of a freshly constructed client session -/\n'
+        f'def clientHardLimit : Rat := {q(f["client_hard_limit"])}\n'
+        f'/-- largest integer drift |cost - cost at the last evaluation| that does NOT make\n'
+        f'    `bump_cost` re-evaluate (found by probing) -/\n'
         f'def driftThreshold : Rat := {q(thr)}\n'
+        f'/-- exactly the threshold does not trigger, a little more does -/\n'
+        f'def driftStrict : Bool := {"true" if f["drift_strict"] else "false"}\n'
         f'def excessiveResourceUsage : Int := {int(f["excessive_code"])}\n'
-        f'def bumpPaths : List String := {lc.lean_strs(f["bump_paths"])}\n'
-        f'def recalcPaths : List String := {lc.lean_strs(f["recalc_paths"])}\n'
-        f'def dataReceivedPaths : List String := {lc.lean_strs(f["data_received_paths"])}\n'
-        f'def bumpErrorsPaths : List String := {lc.lean_strs(f["bump_errors_paths"])}\n'
-        f'def chargeSendMessage : List String := {lc.lean_strs(f["charge_send_message"])}\n'
-        f'def clientOverride : String := {lc.lean_str(f["client_override"])}\n'
-        f'def extraCostDefault : List String := {lc.lean_strs(f["extra_cost_default"])}\n'
-        f'def refusalBranchRequest : List String := {lc.lean_strs(f["refusal_branch_request"])}\n'
-        f'def refusalBranchMessage : List String := {lc.lean_strs(f["refusal_branch_message"])}\n'
-        f'def sleepGuard : List String := {lc.lean_strs(f["sleep_guard"])}\n'
-        f'def parseErrorCost : String := {lc.lean_str(f["parse_error_cost"])}\n'
+        '/-- accounting histories on a bare SessionBase, one flat row of integers each:\n'
+        '    bw soft hard decay sleep base (num den each), init, threshold (num den), client?, #ops,\n'
+        '    ops (kind, num, den) with 0 bump_cost 1 recalc_concurrency 2 data_received(n bytes)\n'
+        '    3 clock advance 4 extra_cost := ; then per op: cost (num den), max_concurrent -/\n'
+        f'def acctTable : List (List Int) := {enc(f["acct_rows"])}\n'
+        '/-- one event on a live session: class (0 RPC / 1 Message), kind, bw, base, bytes in, bytes out\n'
+        '    (unframed), own cost, observed cost delta, observed errors delta -/\n'
+        f'def chargeTable : List (List Int) := {enc(f["charge_rows"])}\n'
+        '/-- one request after an evaluation at a fraction of the soft range: class, cfg, threshold,\n'
+        '    fraction, refused?, started?, delay, hook calls, closing?, reply code -/\n'
+        f'def admitTable : List (List Int) := {enc(f["admit_rows"])}\n'
+        '/-- saturated limiter + queued requests + cost past the hard limit + handlers finish + a late\n'
+        '    request: class, L, queued, route, refused (hook ran)?, closing?, queued/late requests\n'
+        '    executed, left waiting -/\n'
+        f'def queueTable : List (List Int) := {enc(f["queue_rows"])}\n'
         'end Aiorpcx.Facts.C14\n')
